@@ -77,20 +77,29 @@ func r6EqDispatch(w *World, r *Report, rule string, which string) {
 		// a member of a leaf-list is compared by re-entering the type-directed comparison
 		var bad *ssa.BinOp
 		reenters := false
-		for _, b := range f.Blocks {
-			for _, in := range b.Instrs {
-				switch x := in.(type) {
-				case *ssa.BinOp:
-					if x.Op == token.EQL || x.Op == token.NEQ {
-						if bt, ok := x.X.Type().Underlying().(*types.Basic); ok && bt.Info()&types.IsString != 0 {
-							bad = x
+		// Eq itself and the helpers it shares the member loop with (those that call Eq back)
+		cone := []*ssa.Function{f}
+		for g := range calleesDeep(f, 1) {
+			if g != f && g.Pkg == f.Pkg && g.Blocks != nil && g.Parent() == nil && calleesDeep(g, 2)[f] {
+				cone = append(cone, g)
+			}
+		}
+		for _, cf := range cone {
+			for _, b := range cf.Blocks {
+				for _, in := range b.Instrs {
+					switch x := in.(type) {
+					case *ssa.BinOp:
+						if x.Op == token.EQL || x.Op == token.NEQ {
+							if bt, ok := x.X.Type().Underlying().(*types.Basic); ok && bt.Info()&types.IsString != 0 {
+								bad = x
+							}
 						}
-					}
-				case *ssa.Call:
-					if _, inLoop := loopOf(f, b); inLoop {
-						g := x.Call.StaticCallee()
-						if g == f || (g != nil && calleesDeep(g, 2)[w.SSAFunc(w.Method("xpath", "context", "popCompareEqualityAndPush"))]) || (g != nil && nm(g) == "popCompareEqualityAndPush") {
-							reenters = true
+					case *ssa.Call:
+						if _, inLoop := loopOf(cf, b); inLoop {
+							g := x.Call.StaticCallee()
+							if g == f || (g != nil && calleesDeep(g, 2)[w.SSAFunc(w.Method("xpath", "context", "popCompareEqualityAndPush"))]) || (g != nil && nm(g) == "popCompareEqualityAndPush") {
+								reenters = true
+							}
 						}
 					}
 				}
